@@ -35,7 +35,7 @@ def method(prog, adt, name, trait=DT):
 
 def run(ctx, rep):
     prog = ctx.program("default")
-    rep.configs.append("default")
+    rep.configs.append(getattr(ctx, "alias", "default"))
     clipped(prog, rep)
     cropped(prog, rep)
     translated(prog, rep)
